@@ -723,12 +723,77 @@ func pairTableTypingCheck(w *World, r *Report, rule string) {
 			}
 		}
 	}
+	// (4) … unless the conversion is told which receiver's channel it is working on and compile hands the checkpointer
+	// the set of (receiver, sender) edges that carry field mappings: then the pair is chosen per edge
+	perEdge := false
+	{
+		fChannels := w.Field("compose", "checkpoint", "Channels")
+		fRecords := w.Field("compose", "graph", "fieldMappingRecords")
+		keyed := 0
+		for _, name := range []string{"checkPointer.convertCheckPoint", "checkPointer.restoreCheckPoint"} {
+			fn := w.Fn("compose", name)
+			instrs(fn, func(in ssa.Instruction) {
+				mc, ok := in.(*ssa.MakeClosure)
+				if !ok {
+					return
+				}
+				for _, b := range mc.Bindings {
+					v := b
+					if al, ok := b.(*ssa.Alloc); ok {
+						for _, ref := range *al.Referrers() {
+							if st, ok := ref.(*ssa.Store); ok && st.Addr == ssa.Value(al) {
+								v = st.Val
+							}
+						}
+					}
+					if ex, ok := v.(*ssa.Extract); ok && ex.Index == 1 {
+						if nx, ok := ex.Tuple.(*ssa.Next); ok {
+							if rg, ok := nx.Iter.(*ssa.Range); ok && isLoadOfField(rg.X, fChannels) {
+								keyed++
+							}
+						}
+					}
+				}
+			})
+		}
+		edgeTable := false
+		for _, c := range callsTo(gcompile, ncp) {
+			for _, a := range c.Common().Args {
+				mk, ok := a.(*ssa.MakeMap)
+				if !ok {
+					continue
+				}
+				// filled (directly or through its inner maps) inside a loop ranging over g.fieldMappingRecords
+				for _, li := range naturalLoops(gcompile) {
+					overRecords := false
+					for _, in := range li.header.Instrs {
+						if nx, ok := in.(*ssa.Next); ok {
+							if rg, ok := nx.Iter.(*ssa.Range); ok && isLoadOfField(rg.X, fRecords) {
+								overRecords = true
+							}
+						}
+					}
+					if !overRecords {
+						continue
+					}
+					for b := range li.body {
+						for _, in := range b.Instrs {
+							if mu, ok := in.(*ssa.MapUpdate); ok && mu.Map == ssa.Value(mk) {
+								edgeTable = true
+							}
+						}
+					}
+				}
+			}
+		}
+		perEdge = keyed >= 2 && edgeTable
+	}
 	construct := "graph.compile: pair table for channel contents typed per sender; field-mapping edge handlers retype the stored stream"
-	if perSender && storesHandled && retypes != "" && installed {
+	if perSender && storesHandled && retypes != "" && installed && !perEdge {
 		r.Fail(rule, construct, at.Pos(), fmt.Sprintf("channel contents are converted for the checkpoint with the SENDER's outputStreamConvertPair, but channels hold what the edge handlers returned, and streamFieldMap retypes the stream to %s: a Stream/Transform run interrupted while a field-mapped value is pending fails with 'failed to convert checkpoint: cannot convert sr to streamReader[T]' — the interrupt is not reported and no checkpoint is written", retypes))
 		return
 	}
-	r.OK(rule, construct, gcompile.Pos(), fmt.Sprintf("not all of: per-sender table=%v, channels store handler results=%v, retyping handler=%q installed=%v", perSender, storesHandled, retypes, installed))
+	r.OK(rule, construct, gcompile.Pos(), fmt.Sprintf("not all of: per-sender table=%v, channels store handler results=%v, retyping handler=%q installed=%v, no per-edge choice=%v", perSender, storesHandled, retypes, installed, !perEdge))
 }
 
 // completedOnce: in runner.run every batch of completed tasks (a result of taskManager.wait / waitAll) is resolved
